@@ -8,7 +8,7 @@
      det_idx_det     det_idx D idx = Some q -> \det (gram (cmx N D n idx)) = Qrat q
      ratio_det_mx    ratio_det D ix iy iz = Some q -> Qrat q = ratio_mx X Y Z   (X, Y, Z the centred blocks) *)
 From Coq Require Import QArith ZArith List.
-From mathcomp Require Import all_ssreflect all_algebra.
+From mathcomp Require Import all_ssreflect all_fingroup all_algebra.
 From mathcomp Require Import ssrZ.
 From CE Require Import GeneratorsMxBridge LinAlgBridge GaussMx.
 From CE Require Model.Gauss Proofs.GaussProofs.
@@ -276,6 +276,18 @@ Lemma ratio_det_red q : Gauss.ratio_det D ix iy iz = Some q -> Qred q = q.
 Proof. by case/ratio_ofP => a [b [c [d [_ _ _ _ ->]]]]; apply: Qred_complete; exact: Qred_correct. Qed.
 End ListModel.
 
+(* summary for Properties/C08Mx.v *)
+Theorem ratio_det_facts N D ix iy iz : D <> [::] -> size D = N ->
+  let X := cmx N D (size ix) ix in let Y := cmx N D (size iy) iy in let Z := cmx N D (size iz) iz in
+  (forall q, Gauss.ratio_det D ix iy iz = Some q -> Qrat q = ratio_mx X Y Z) /\
+  ((exists q, Gauss.ratio_det D ix iy iz = Some q) <-> \rank (row_mx (row_mx X Y) Z) = (size ix + size iy + size iz)%N) /\
+  (forall q, Gauss.ratio_det D ix iy iz = Some q ->
+     Qrat q = \det (gram (resid Z X)) * \det (gram (resid Z Y)) / \det (gram (row_mx (resid Z X) (resid Z Y)))).
+Proof.
+move=> HD sD X Y Z; split; first by move=> q; exact: ratio_det_mx.
+by split; [exact: ratio_det_SomeP|move=> q; exact: ratio_det_residual_mx].
+Qed.
+
 (* the same with the block sizes as parameters (so that two samples can be compared in one matrix type) *)
 Theorem ratio_det_mxk N D ix iy iz kx ky kz q : D <> [::] -> size D = N -> size ix = kx -> size iy = ky -> size iz = kz ->
   Gauss.ratio_det D ix iy iz = Some q -> Qrat q = ratio_mx (cmx N D kx ix) (cmx N D ky iy) (cmx N D kz iz).
@@ -414,6 +426,11 @@ move=> HD Mn0; apply: ratio_det_mixing HD _ (same_cols_mix _ _ _ _) (same_cols_m
 by rewrite /mix_sample size_map.
 Qed.
 
+Corollary ratio_det_mix_sample_det_piv D ix iy iz M m : D <> [::] -> wf_mat (size iz) (size iz) M -> Gauss.det_piv M = Some m ->
+  Gauss.ratio_det (mix_sample iz M D) (map (addn (size iz)) ix) (map (addn (size iz)) iy) (iota 0 (size iz)) =
+  Gauss.ratio_det D ix iy iz.
+Proof. by move=> HD wf Hm; apply: ratio_det_mix_sample HD _; exact: det_piv_Some_minors wf Hm _ (leqnn _). Qed.
+
 (* non-vacuity: an invertible 2 x 2 mixing of the two conditioning columns of GaussProofs.exD; both sides are defined *)
 Example ex_mixing :
   let M := [:: [:: Qmake 1 1; Qmake 3 2]; [:: Qmake (-2) 1; Qmake 1 3]] in
@@ -422,3 +439,42 @@ Example ex_mixing :
   Gauss.ratio_det GaussProofs.exD [:: 0]%N [:: 1]%N [:: 2; 3]%N /\
   Gauss.ratio_det GaussProofs.exD [:: 0]%N [:: 1]%N [:: 2; 3]%N <> None.
 Proof. by vm_compute. Qed.
+
+(* ---- any re-ordering of the column index list: the scatter determinant (value and definedness) is unchanged ------ *)
+Lemma det_gram_col_perm (F : fieldType) N n (A : 'M[F]_(N, n)) (p : 'S_n) : \det (gram (col_perm p A)) = \det (gram A).
+Proof. by rewrite col_permE det_gram_mulr det_perm sqrr_sign mul1r. Qed.
+
+Lemma rank_col_perm (F : fieldType) N n (A : 'M[F]_(N, n)) (p : 'S_n) : \rank (col_perm p A) = \rank A.
+Proof. by rewrite col_permE mxrankMfree // row_free_unit unitmx_perm. Qed.
+
+Lemma cmx_perm N D n idx idx' : size idx = n -> perm_eq idx' idx -> exists p : 'S_n, cmx N D n idx' = col_perm p (cmx N D n idx).
+Proof.
+move=> sz; rewrite -[idx]/(tval (in_tuple idx)); move: (in_tuple idx); rewrite sz => t /tuple_permP[p ->].
+by exists p; apply/matrixP => l a; rewrite !mxE nth_mktuple (tnth_nth 0%N).
+Qed.
+
+Theorem det_idx_perm D idx idx' : D <> [::] -> perm_eq idx' idx -> Gauss.det_idx D idx' = Gauss.det_idx D idx.
+Proof.
+move=> HD pe; have sD := erefl (size D); have sz' : size idx' = size idx by exact: perm_size.
+have [p Ep] := cmx_perm (size D) D (erefl (size idx)) pe.
+have P := det_idx_SomeP HD sD (erefl (size idx)); have P' := det_idx_SomeP HD sD sz'.
+case H': (Gauss.det_idx D idx') => [q'|]; case H: (Gauss.det_idx D idx) => [q|] //.
+- congr Some; apply: (det_piv_eq H' H).
+  by rewrite -(det_idx_det HD sD sz' H') -(det_idx_det HD sD (erefl _) H) Ep det_gram_col_perm.
+- have /P' : exists q, Gauss.det_idx D idx' = Some q by exists q'.
+  by rewrite Ep rank_col_perm => /P[q]; rewrite H.
+- have /P : exists q, Gauss.det_idx D idx = Some q by exists q.
+  by rewrite -(rank_col_perm _ p) -Ep => /P'[q']; rewrite H'.
+Qed.
+
+(* the determinant form depends on the index lists X, Y, Z only up to the order inside each block *)
+Theorem ratio_det_perm D ix iy iz ix' iy' iz' : perm_eq ix' ix -> perm_eq iy' iy -> perm_eq iz' iz ->
+  Gauss.ratio_det D ix' iy' iz' = Gauss.ratio_det D ix iy iz.
+Proof.
+move=> px py pz; rewrite /Gauss.ratio_det.
+have E idx idx' : perm_eq idx' idx -> Gauss.det_idx D idx' = Gauss.det_idx D idx.
+  case: D => [|r D] pe; last exact: det_idx_perm.
+  by rewrite !det_idx_nilD; move/perm_size: pe; case: idx idx' => [|? ?] [|? ?].
+by rewrite (E _ _ pz) (E (ix ++ iz) (ix' ++ iz')) ?perm_cat // (E (iy ++ iz) (iy' ++ iz')) ?perm_cat //
+           (E (ix ++ iy ++ iz) (ix' ++ iy' ++ iz')) ?perm_cat.
+Qed.
